@@ -102,11 +102,18 @@ func child(p *core.Prop) {
 			panic(err)
 		}
 	}
-	for idx := *fWorker; idx < n; idx += *fWorkers {
+	// keep the footprint of a worker bounded (race-instrumented workers grow to several GB otherwise
+	// and sixteen of them invite the kernel's OOM killer): a soft memory limit makes the collector
+	// work harder instead, and freed memory is handed back regularly
+	debug.SetMemoryLimit(2 << 30)
+	for k, idx := 0, *fWorker; idx < n; k, idx = k+1, idx+*fWorkers {
 		if jf != nil {
 			fmt.Fprintf(jf, "B %d\n", idx)
 		}
 		runCase(p, st, *fTier, *fSeed, idx, n, false)
+		if k%8 == 7 {
+			debug.FreeOSMemory()
+		}
 	}
 	if p.Finish != nil {
 		p.Finish(st)
@@ -164,6 +171,9 @@ func parent(p *core.Prop) int {
 	}
 	if workers > n {
 		workers = n
+	}
+	if p.Race && *fTier == "thorough" && workers > 8 {
+		workers = 8 // race-instrumented workers are memory-hungry; each still releases 48 goroutines per case
 	}
 	if workers < 1 {
 		workers = 1
@@ -234,6 +244,13 @@ func parent(p *core.Prop) int {
 			// process-fatal event: attribute to the last journalled case
 			last := lastJournalled(c.journal)
 			out, _ := os.ReadFile(c.out)
+			// A worker that was killed from OUTSIDE (SIGKILL that the watchdog did not send: the kernel's
+			// OOM killer, an operator) and left no runtime report says nothing about the library: inconclusive.
+			// A fatal error of the Go runtime (concurrent map access, stack overflow, ...) exits with a report.
+			if c.err != nil && strings.Contains(c.err.Error(), "signal: killed") && !strings.Contains(string(out), "fatal error") && !strings.Contains(string(out), "panic:") {
+				total.Inconclusive = append(total.Inconclusive, fmt.Sprintf("worker %d was killed by the operating system while executing case %d (out of memory?): no verdict for its cases", w, last))
+				continue
+			}
 			st := core.NewStats()
 			st.NViolations = 1
 			st.Violations = []core.Violation{{Prop: p.ID, Sig: "process-fatal", What: "child process died (fatal error / runaway) while executing a case",
@@ -446,12 +463,12 @@ func sanitize(s string) string {
 
 func writeEv(p *core.Prop, st *core.Stats, tier string, seed int64, wall float64, verdict string, nUnknown int, knownHit map[string]int) {
 	cov := map[string]interface{}{
-		"evaluations":         st.Evaluations,
-		"distinct_nontrivial": len(st.Nontrivial),
-		"rule":                p.Rule,
-		"verdict":             verdict,
-		"counters":            st.Counters,
-		"known_findings_hit":  knownHit,
+		"evaluations":            st.Evaluations,
+		"distinct_nontrivial":    len(st.Nontrivial),
+		"rule":                   p.Rule,
+		"verdict":                verdict,
+		"counters":               st.Counters,
+		"known_findings_hit":     knownHit,
 		"violation_observations": st.NViolations,
 	}
 	samples := make([]interface{}, 0)
